@@ -40,7 +40,7 @@ pub mod stdcode {
     use super::*;
     #[derive(Debug)] pub struct DeError {}
     #[verifier::external_body]
-    pub fn deserialize<T: StdSer, B: BytesLike>(b: &B) -> (r: Result<T, DeError>)
+    pub fn deserialize<T: StdSer>(b: &impl BytesLike) -> (r: Result<T, DeError>)
         ensures match T::de(b.bytes()) { Some(x) => r == Ok::<T, DeError>(x), None => r is Err }
     { unimplemented!() }
     #[derive(Debug)] pub struct SerError {}
@@ -165,7 +165,17 @@ pub mod novasmt {
         { unimplemented!() }
         #[verifier::external_body]
         pub fn count(&self) -> (r: usize) ensures r == entry_count(self@) { unimplemented!() }
+        /// A-SMT: the value under `key` with a Merkle proof for exactly that (root, key, value); novasmt 0.2.20 itself asserts
+        /// `p.verify(self.ptr, key, &res)` before returning
+        #[verifier::external_body]
+        pub fn get_with_proof(&self, key: [u8; 32]) -> (r: (Vec<u8>, FullProof)) ensures r.0@ == self@[key@], r.1.verifies(root_of(self@), key@, r.0@) { unimplemented!() }
+        /// A-SMT: `clear` resets the root pointer: the empty tree
+        #[verifier::external_body]
+        pub fn clear(&mut self) ensures final(self)@ == IMap::new(|k: Seq<u8>| true, |k: Seq<u8>| Seq::<u8>::empty()), root_of(final(self)@)@ == Seq::new(32, |i: int| 0u8) { unimplemented!() }
     }
+    /// novasmt::FullProof: `verifies(root, key, val)` is FullProof::verify (A-SMT: sound for inclusion and, with the empty value, for exclusion)
+    #[verifier::external_body] pub struct FullProof { _p: u8 }
+    impl FullProof { pub uninterp spec fn verifies(&self, root: [u8; 32], key: Seq<u8>, val: Seq<u8>) -> bool; }
     pub uninterp spec fn entry_count(m: IMap<Seq<u8>, Seq<u8>>) -> nat;
     pub use super::novasmt_db::Database;
     /// every tree view is total (absent keys read as the empty string)
@@ -235,5 +245,7 @@ pub mod novasmt_db {
     }
 }
 pub use novasmt_db::{Database, InMemoryCas, DenseMerkleTree, vecs_view, seq_iset, bytes_sorted, dense_root_set, sort_unstable_bytes};
+/// `a == b` on byte arrays (declared substitution; std's array PartialEq carries no spec in this Verus build): element-wise equality
+#[verifier::external_body] pub fn arr32_eq(a: [u8; 32], b: [u8; 32]) -> (r: bool) ensures r == (a@ == b@) { unimplemented!() }
 /// `<[u8; 32] as Default>::default()` (declared substitution): the all-zero root of the empty tree
 #[verifier::external_body] pub fn zero_root() -> (r: [u8; 32]) ensures r@ == Seq::new(32, |i: int| 0u8) { unimplemented!() }
